@@ -18,7 +18,8 @@ the decoder stores (`v.FieldByIndex(dec.union).Set(lastField.Addr())`) and what 
 encode.go (after fix fb0bd25):
   * `zeroMember`: when the union field is not nil, EVERY member holds its zero value and EXACTLY ONE member has the type the
     interface points to, that member is written although it is zero. (Two members of the same Go type: none is written —
-    recorded as a finding, see `zeroMember_ambiguous` in Lemmas/ThriftUnion.lean.)
+    recorded as a finding; characterised exactly by `zeroMember_none_iff` / `zeroMember_ambiguous_witness` in
+    Lemmas/ThriftUnionZm.lean.)
   * more than one field written ⇒ `Marshal` returns an error (after writing; the bytes are not modelled then).
 decode.go: a member that arrives with the expected type first RESETS the whole struct to its zero value (`v.Set(dec.zero)`:
 earlier members, untagged fields and the union field are gone), is then decoded, and is remembered (`lastField`); at the end
